@@ -111,3 +111,16 @@ package v2
 //@   ensures [same-meaning-as-matcher-list] result == (forall i int :: 0 <= i && i < len(matchers) ==> fholds(matchers[i], fvalue(sms, matchers[i].Name)))
 //@   loop 1 invariant rangeindex < len(matchers) && (forall k int :: 0 <= k && k <= rangeindex ==> fholds(matchers[k], fvalue(sms, matchers[k].Name)))
 //@   assigns nothing
+
+// C13: GET /alerts reports, for every listed alert, the receivers routing selects for that alert: the receiver list
+// handed to the API model is built for this alert (one name per matched route, in order) in a slice of its own -
+// allocated after this alert was routed, so it shares no backing array with the list of an alert reported earlier
+// (the API model keeps pointers into it).
+//@ func (*API).getAlertsHandler
+//@   props C13
+//@   abstract
+//@   nosafe
+//@   assumes api != nil && api.route != nil
+//@   at call AlertToOpenAPIAlert assert [receivers-of-this-alert-in-a-slice-of-their-own] called("Route).Match") && allocsince("Route).Match", arg2) && len(arg2) == len(ret("Route).Match"))
+//@   loop 2 invariant allocsince("Route).Match", receivers) && len(receivers) == rangeindex + 1 && rangeindex < len(ret("Route).Match"))
+//@   opaque AlertToOpenAPIAlert alertFilter receiversMatchLabels parseFilter receiverLabelsMap requestLogger
